@@ -213,6 +213,12 @@ class Container(dict):
         compiled_pattern = re.compile(pattern)
         return self.__class__._search(self, compiled_pattern, True)
 
+    def __reduce__(self, /):
+        """
+        Used by pickle: the instance is recreated through __init__ (which re-establishes attribute access) and its entries are restored as dict items, without calling a method that a key could shadow.
+        """
+        return (self.__class__, (), None, None, iter(dict.items(self)))
+
     def __getstate__(self, /):
         """
         Used by pickle to serialize an instance to a dict.
